@@ -18,6 +18,11 @@ Definition vz {T} (v : vec3 T) : T := snd v.
 Definition mrow0 {T} (m : mat3 T) : vec3 T := fst (fst m).
 Definition mrow1 {T} (m : mat3 T) : vec3 T := snd (fst m).
 Definition mrow2 {T} (m : mat3 T) : vec3 T := snd m.
+(* columns and transpose need no arithmetic: they take no Num argument *)
+Definition mcol0 {T} (m : mat3 T) : vec3 T := (vx (mrow0 m), vx (mrow1 m), vx (mrow2 m)).
+Definition mcol1 {T} (m : mat3 T) : vec3 T := (vy (mrow0 m), vy (mrow1 m), vy (mrow2 m)).
+Definition mcol2 {T} (m : mat3 T) : vec3 T := (vz (mrow0 m), vz (mrow1 m), vz (mrow2 m)).
+Definition mtrans {T} (m : mat3 T) : mat3 T := (mcol0 m, mcol1 m, mcol2 m).
 
 Section Vec3.
   Context {T : Type} (N : Num T).
@@ -42,10 +47,6 @@ Section Vec3.
 
   Definition mid3 : mat3 T :=
     ((n1 N, n0 N, n0 N), (n0 N, n1 N, n0 N), (n0 N, n0 N, n1 N)).
-  Definition mcol0 (m : mat3 T) : vec3 T := (vx (mrow0 m), vx (mrow1 m), vx (mrow2 m)).
-  Definition mcol1 (m : mat3 T) : vec3 T := (vy (mrow0 m), vy (mrow1 m), vy (mrow2 m)).
-  Definition mcol2 (m : mat3 T) : vec3 T := (vz (mrow0 m), vz (mrow1 m), vz (mrow2 m)).
-  Definition mtrans (m : mat3 T) : mat3 T := (mcol0 m, mcol1 m, mcol2 m).
   (* M . v : out[j] = sum_i M[j, i] v[i] *)
   Definition mvec (m : mat3 T) (v : vec3 T) : vec3 T :=
     (vdot (mrow0 m) v, vdot (mrow1 m) v, vdot (mrow2 m) v).
